@@ -4,9 +4,12 @@
      wf_cell c    period_start <= period_end              (enforced by the Cell constructor)
      wf_meta m    detail dictionaries have unique keys    (Python dicts)
    Orders: dates/ints Z.ltb, periods pair_ltb (tuple order), strings str_ltb (code-point order =
-   bytewise order on UTF-8).  Metadata.__lt__ belongs to C01: `metadata` is characterised as the
-   duplicate-free image (w.r.t. Python ==, [meta_pyeq]) and is sorted for EVERY total order [mlt]
-   under which the cells are sorted metadata-major (C13_metadata_sorted).
+   bytewise order on UTF-8).  `metadata` is characterised as the duplicate-free image w.r.t. Python ==
+   ([meta_pyeq], proved equal to C01's Order.meta_pyeq: C13_pyeq_is_C01_pyeq); it is sorted for EVERY total
+   order under which the cells are sorted metadata-major (C13_metadata_sorted), and for the REAL
+   Metadata.__lt__ of C01 (Order.meta_cmp) on every canonical triangle -- the constructor's output --
+   it is strictly ascending and duplicate-free, i.e. sorted(set(...)) as the source computes it
+   (C13_metadata_canonical).
    Month unit: [cell_lag UMonth] / [plen UMonth] are Calendar.lag_months.  Tie to the source: this is the
    value of the float-based dev_lag_months only where the C12 bridge theorems say so (month-aligned
    dates, 1970-2100; before 1970 see known finding F10).  C13_month_unit gives the closed forms for
@@ -16,6 +19,7 @@
 From Coq Require Import ZArith List Bool Lia Sorted.
 From Bermuda Require Import Lib.Calendar Model.Base Model.Accessors Proofs.Accessors Proofs.AccessorsTax
   Proofs.CalendarP Proofs.AccessorsCal.
+From Bermuda Require Model.Order Proofs.OrderP Proofs.TriangleP Proofs.AccessorsOrder.
 Import ListNotations.
 Open Scope Z_scope.
 
@@ -118,6 +122,24 @@ Theorem C13_metadata_sorted : forall (mlt : meta -> meta -> bool) t,
   StronglySorted (fun a b => mlt a b = true) (metadata t).
 Proof. exact metadata_sorted. Qed.
 Print Assumptions C13_metadata_sorted.
+
+(* the Python == of the accessor model is C01's Metadata.__eq__ (equality of canonical keys) *)
+Theorem C13_pyeq_is_C01_pyeq : forall a b, wf_meta a -> wf_meta b -> meta_pyeq a b = Order.meta_pyeq a b.
+Proof. exact AccessorsOrder.meta_pyeq_agree. Qed.
+Print Assumptions C13_pyeq_is_C01_pyeq.
+
+(* with the real Metadata.__lt__ (C01): on the constructor's output `metadata` is strictly ascending and
+   duplicate-free -- together with C13_metadata (same elements as the cells) it is sorted(set(...)) *)
+Theorem C13_metadata_canonical : forall l t,
+  TriangleP.cells_comparable l -> Order.mk_triangle l = Ok t ->
+  (forall c, In c t -> wf_meta (cmeta c)) ->
+  StronglySorted (fun a b => Order.meta_cmp a b = Some Lt) (metadata t) /\
+  ForallOrdPairs (fun a b => Order.meta_pyeq a b = false) (metadata t).
+Proof.
+  intros l t Hc H Hwf. apply AccessorsOrder.metadata_canonical; [|assumption].
+  eapply AccessorsOrder.mk_triangle_is_canonical; eassumption.
+Qed.
+Print Assumptions C13_metadata_canonical.
 
 Theorem C13_pyeq_equivalence :
   (forall a, meta_pyeq a a = true) /\ (forall a b, meta_pyeq a b = meta_pyeq b a) /\
